@@ -1,0 +1,63 @@
+//go:build verif
+
+package kfake
+
+import (
+	"github.com/twmb/franz-go/pkg/kmsg"
+)
+
+// This file is only built with -tags verif. It exposes the filesystem
+// abstraction and the ACL decision functions to the external verification
+// harness. Nothing here changes kfake behavior.
+
+type (
+	// VerifFS is the filesystem interface kfake persists through.
+	VerifFS = fs
+	// VerifFile is an open file of a VerifFS.
+	VerifFile = file
+)
+
+// VerifOSFS returns the real-filesystem implementation.
+func VerifOSFS() VerifFS { return osFS{} }
+
+// VerifWithFS makes the cluster persist through f (DataDir must be set).
+func VerifWithFS(f VerifFS) Opt { return opt{func(cfg *cfg) { cfg.injectFS = f }} }
+
+// VerifACL is one ACL binding.
+type VerifACL struct {
+	Principal    string
+	Host         string
+	ResourceType kmsg.ACLResourceType
+	ResourceName string
+	Pattern      kmsg.ACLResourcePatternType
+	Operation    kmsg.ACLOperation
+	Permission   kmsg.ACLPermissionType
+}
+
+func verifACLs(in []VerifACL) *clusterACLs {
+	var a clusterACLs
+	for _, v := range in {
+		a.add(acl{
+			principal:    v.Principal,
+			host:         v.Host,
+			resourceType: v.ResourceType,
+			resourceName: v.ResourceName,
+			pattern:      v.Pattern,
+			operation:    v.Operation,
+			permission:   v.Permission,
+		})
+	}
+	return &a
+}
+
+// VerifACLAllowed is the per-resource authorization decision for a
+// non-superuser principal.
+func VerifACLAllowed(acls []VerifACL, principal, host, resourceName string, resourceType kmsg.ACLResourceType, op kmsg.ACLOperation) bool {
+	return verifACLs(acls).allowed(principal, host, resourceName, resourceType, op)
+}
+
+// VerifACLAnyAllowed is the any-resource-of-type authorization decision for a
+// non-superuser principal.
+func VerifACLAnyAllowed(acls []VerifACL, principal, host string, resourceType kmsg.ACLResourceType, op kmsg.ACLOperation) bool {
+	return verifACLs(acls).anyAllowed(principal, host, resourceType, op)
+}
